@@ -146,18 +146,22 @@ func otlp1(span Span, res []KV) *Batch {
 
 // ---- OTLP families -----------------------------------------------------------------------------------------------
 
-func famOTLPAttr1() *family {
-	return newFamily("otlp-attr1", []dim{{"value", len(valsFull)}}, func(d []int) *Batch {
+func famOTLPAttr1(resOpts [][]KV) *family {
+	return newFamily("otlp-attr1", []dim{{"value", len(valsFull)}, {"res", len(resOpts)}, {"level", 2}}, func(d []int) *Batch {
 		s := baseSpan()
-		s.Attrs = []KV{{"k1", valsFull[d[0]]}}
-		return otlp1(s, []KV{svcAttr("svc")})
+		if d[2] == 0 {
+			s.Attrs = []KV{{"k1", valsFull[d[0]]}}
+			return otlp1(s, resOpts[d[1]])
+		}
+		// the same value as a resource attribute
+		return otlp1(s, append(append([]KV{}, resOpts[d[1]]...), KV{"k1", valsFull[d[0]]}))
 	})
 }
 
-func famOTLPAttr2(vals []AV) *family {
-	return newFamily("otlp-attr2", []dim{{"v1", len(vals)}, {"v2", len(vals)}, {"res", 2}}, func(d []int) *Batch {
+func famOTLPAttr2(name string, vals1, vals []AV) *family {
+	return newFamily(name, []dim{{"v1", len(vals1)}, {"v2", len(vals)}, {"res", 2}}, func(d []int) *Batch {
 		s := baseSpan()
-		s.Attrs = []KV{{"k1", vals[d[0]]}, {"k.2", vals[d[1]]}}
+		s.Attrs = []KV{{"k1", vals1[d[0]]}, {"k.2", vals[d[1]]}}
 		res := []KV{svcAttr("svc")}
 		if d[2] == 1 {
 			res = []KV{{"host", str("h1")}, svcAttr("svc2")}
@@ -395,9 +399,12 @@ func zipkinPool(n int) []Span {
 	return p[:n]
 }
 
-func famZipkinMulti(nspans, pool int) *family {
+func famZipkinMulti(nspans, pool int, allOrders bool) *family {
 	zp := zipkinPool(pool)
 	orders := [][]string{nil, {"remoteEndpoint", "tags", "name", "localEndpoint"}}
+	if allOrders {
+		orders = perms4()
+	}
 	dims := []dim{{"nd", 2}, {"trailnl", 2}, {"order", len(orders)}, {"tsstr", 2}}
 	for i := 0; i < nspans; i++ {
 		dims = append(dims, dim{fmt.Sprintf("variant%d", i), pool})
@@ -453,28 +460,30 @@ func buildSpace(thorough bool) *space {
 	add(famOTLPIds())
 	add(famZipkinIds())
 	add(famZipkinTags())
-	add(famOTLPAttr1())
 	if thorough {
 		big := append(append([]AV{}, valsMid...), depth1...)
-		add(famOTLPAttr2(big))
+		add(famOTLPAttr1([][]KV{{svcAttr("svc")}, nil, {{"host", str("h")}, svcAttr("svc2")}, {{"k.2", kvl(KV{"a", str("x")})}}}))
+		add(famOTLPAttr2("otlp-attr2", big, big))
+		add(famOTLPAttr2("otlp-attr2-full", valsFull, valsMid))
 		add(famOTLPRes(valsMid))
 		for si := range otlpShapes() {
 			add(famOTLPMulti(si, 1, 6))
 			add(famOTLPMulti(si, 2, 6))
 			add(famOTLPMulti(si, 3, 6))
 		}
-		add(famZipkinMulti(2, 7))
-		add(famZipkinMulti(3, 7))
+		add(famZipkinMulti(2, 7, true))
+		add(famZipkinMulti(3, 7, true))
 	} else {
-		add(famOTLPAttr2(valsMid))
+		add(famOTLPAttr1([][]KV{{svcAttr("svc")}}))
+		add(famOTLPAttr2("otlp-attr2", valsMid, valsMid))
 		add(famOTLPRes(valsSmall))
 		for si := range otlpShapes() {
 			add(famOTLPMulti(si, 1, 4))
 			add(famOTLPMulti(si, 2, 4))
 			add(famOTLPMulti(si, 3, 3))
 		}
-		add(famZipkinMulti(2, 5))
-		add(famZipkinMulti(3, 5))
+		add(famZipkinMulti(2, 5, true))
+		add(famZipkinMulti(3, 5, false))
 	}
 	add(famZipkinOrder())
 	return s
